@@ -39,7 +39,10 @@ type Query struct {
 	Trace  []string
 	seq    int
 	short  bool
+	concrete bool // model-finding mode: concrete definitions instead of uninterpreted functions, no axioms
 	prefer string
+	Rets   []*Val // ensures queries: the values returned on this path (for replay)
+	Post   *State // state at the point of the obligation
 	Cover  bool // satisfiable expected (vacuity check): sat/unknown = ok, unsat = vacuous
 	Run    *Run
 	Result *SolveResult
@@ -74,6 +77,7 @@ type Run struct {
 	needs   map[string]bool
 	foreign map[string]string // callee clauses of other properties relied upon in a property-filtered run
 	dynFn   *Val
+	curRets []*Val
 	inDefer int
 	kindOrd map[string]map[ssa.Instruction]int
 }
@@ -145,7 +149,7 @@ func newRun(e *Engine, fn *ssa.Function, ct *Contract) *Run {
 // emit records a proof obligation: pc => goal.
 func (r *Run) emit(st *State, name, kind string, props []string, goal string) {
 	q := &Query{Name: r.name + "/" + name, Props: props, Fn: r.name, Kind: kind, PC: append([]string(nil), st.pc...), Uses: sortedKeys(st.uses), Goal: goal,
-		Trace: append([]string(nil), st.trace...), Run: r}
+		Trace: append([]string(nil), st.trace...), Run: r, Post: st, Rets: r.curRets}
 	r.queries = append(r.queries, q)
 }
 
